@@ -172,7 +172,7 @@ func c03Variants() []stdVariant {
 func TestC03(t *testing.T) {
 	V.Rule("lab: the property's decision table {Route: none/own/own+next/next} x {To host: exact/wildcard/only default/none} x {Request-URI: name literal/regex-only/user@host/urn-tel/listener address:port/foreign} x {keep-next-hop-route on/off} x {next-hop transport udp/tcp/unsupported} enumerated cell by cell over 4 service instances started from generated YAML; each cell instantiated with rapid-generated users, ports, parameters, methods, aliases, extra headers, UDP or TCP ingress, any of the listen entries. Oracle: reference model (Route, then static route by To host, then service match, else drop); exactly one reception at the expected endpoint (any backend of the receiving listen entry for the backend outcome), nothing anywhere else after a FIFO barrier. non-trivial = >= 2 rules applicable (precedence decides) or a drop outcome; distinct by (instance, cell, message)")
 	V.Assume("loopback delivery is effectively synchronous; a scheduling hiccup can only hide an extra copy (lost sensitivity), presence waits up to 20 s")
-	V.Require("a burst towards a tcp next hop the proxy had no connection to", "a tcp next hop that refuses connections, then accepts them", "outcome:route", "outcome:static", "outcome:backend", "outcome:drop", "precedence decides", "ingress:tcp", "unsupported transport dropped")
+	V.Require("a request of a pinned dialog that matches none of the three rules", "a burst towards a tcp next hop the proxy had no connection to", "a tcp next hop that refuses connections, then accepts them", "outcome:route", "outcome:static", "outcome:backend", "outcome:drop", "precedence decides", "ingress:tcp", "unsupported transport dropped")
 	k := V.N(8, 60)
 	if V.replay {
 		k = 0
@@ -245,6 +245,68 @@ func TestC03(t *testing.T) {
 		}
 		if missing > 0 || twice > 0 {
 			failf(rt, "a burst of %d requests, sent back to back over UDP, all with a Route naming the TCP element %s:%d (listening; the proxy had no connection to it yet): %d never arrived there, %d arrived more than once", n, hip, hport, missing, twice)
+		}
+	})
+	// What the proxy remembers about a dialog (the backend that answered it) is no
+	// fourth rule: a request of that dialog that matches none of the three rules -
+	// no Route left, no static route for its To host, a Request-URI that is neither
+	// the service nor the listener - is dropped like any other.
+	rcheck(t, "in-dialog-no-rule", V.N(10, 100), func(rt *rapid.T) {
+		s := fsvc
+		entry := rapid.IntRange(0, 1).Draw(rt, "listen entry")
+		l := s.in.cfg.Listens[entry]
+		ua := s.uas[rapid.IntRange(0, 3).Draw(rt, "ua")]
+		send := func(b []byte) error { return ua.sendUDP(l.Addr, l.UDPPort, b) }
+		id := s.nextID("c03d-")
+		mk := func(method, ruri, callID, toTag string, cseq int) []byte {
+			to := "<sip:b@nomatch.example>"
+			if toTag != "" {
+				to += ";tag=" + toTag
+			}
+			return []byte(fmt.Sprintf("%s %s SIP/2.0\r\nVia: SIP/2.0/UDP %s:5060;branch=z9hG4bK%s-%d\r\nMax-Forwards: 70\r\nFrom: <sip:a@a.example>;tag=f%s\r\nTo: %s\r\nCall-ID: %s\r\nCSeq: %d %s\r\nContent-Length: 0\r\n\r\n", method, ruri, ua.ip, callID, cseq, id, to, callID, cseq, method))
+		}
+		one := func(wire []byte, min int) []labRx {
+			s.model.learnRequest(s.model.transport(entry, "udp"), ua.ip, &AMsg{IsReq: true, Hdrs: []AHdr{{Kind: hVia, Vias: []AVia{{Host: ua.ip}}}}})
+			s.in.expect(wire)
+			if err := send(wire); err != nil {
+				V.HarnessError(rt, "send: %v", err)
+			}
+			rs, err := s.in.settle(send, min)
+			if _, lost := err.(labLost); lost {
+				failf(rt, "%v", err)
+			} else if err != nil {
+				V.HarnessError(rt, "%v", err)
+			}
+			return labMessages(rs)
+		}
+		got := one(mk("INVITE", "sip:svc.test", id, "", 1), 1)
+		if len(got) != 1 || got[0].tcp != nil || !s.isBackendOf(got[0].ep, entry, false) {
+			return // the TCP backend's turn, or a misdelivery the decision table reports
+		}
+		bep := got[0].ep
+		resp := buildResponse(got[0].msg, rapid.SampledFrom([]int{180, 200, 200}).Draw(rt, "answer"), "Answer", "t"+id, "")
+		bsend := func(b []byte) error { return bep.sendUDP(l.Addr, l.UDPPort, b) }
+		s.in.expect(resp)
+		if err := bsend(resp); err != nil {
+			V.HarnessError(rt, "backend send: %v", err)
+		}
+		if _, err := s.in.settle(bsend, 1); err != nil {
+			if _, lost := err.(labLost); lost {
+				failf(rt, "%v", err)
+			}
+			V.HarnessError(rt, "%v", err)
+		}
+		method := rapid.SampledFrom([]string{"BYE", "INFO", "INVITE", "UPDATE", "NOTIFY"}).Draw(rt, "in-dialog method")
+		ruri := rapid.SampledFrom([]string{"sip:app@elsewhere.example:5070", "sip:b@" + bep.ip + ":5080", "sip:contact@198.51.100.7", "sips:app@elsewhere.example"}).Draw(rt, "request-uri")
+		V.Journal(t.Name()+"/in-dialog-no-rule", map[string]any{"dialog": id, "pinned_to": bep.String(), "request": method + " " + ruri})
+		V.Class("a request of a pinned dialog that matches none of the three rules")
+		V.NonTrivial("nodlg|" + id)
+		// control: the same request outside every dialog
+		if got := one(mk(method, ruri, s.nextID("c03x-"), "tx", 2), 0); len(got) != 0 {
+			failf(rt, "%s %s (no Route, To host without static route, Request-URI neither the service nor the listener) must be dropped; receptions:\n%s", method, ruri, labDescribe(got))
+		}
+		if got := one(mk(method, ruri, id, "t"+id, 2), 0); len(got) != 0 {
+			failf(rt, "%s %s of the dialog %s (answered by backend %s) matches none of the three rules - no Route, To host without static route, Request-URI neither the service nor the listener - and must be dropped like the same request outside the dialog was; receptions:\n%s", method, ruri, id, bep, labDescribe(got))
 		}
 	})
 	rcheck(t, "refusing-hop", V.N(10, 120), func(rt *rapid.T) {
